@@ -60,6 +60,8 @@ type AnnoStructs struct {
 }
 
 func Variants(msaIn io.Reader, stdin bool, refID string, annoIn io.Reader, annoSuffix string, out io.Writer, start int, end int, aggregate bool, threshold float64, appendSNP bool, threads int) error {
+	vhook.Begin("variants.Variants", threads)
+	defer vhook.End("variants.Variants")
 
 	var err error
 
